@@ -1232,6 +1232,9 @@ class TaskPool:
                     and itask.state_reset(is_runahead=True)
                 ):
                     self.data_store_mgr.delta_task_state(itask)
+                    # (a runahead-limited task must not stay queued, else
+                    # the queue would release it beyond the stop point)
+                    self.unqueue_task(itask)
         return True
 
     def can_stop(self, stop_mode):
